@@ -165,8 +165,8 @@ def main():
         if pid in srcref.PROPS:
             # translator tie (reg_access.py -> PyLite -> refinement proofs); when it is not available the tie
             # rests on the correspondence alone, searched with the escalated budget
-            srcref_res = srcref.check()
-            escalate = escalate or srcref_res.get("status") != "proved"
+            srcref_res = srcref.check(pid)
+            escalate = escalate or not srcref.all_proved(srcref_res)
         res = propdefs.run_property(pid, a.tier, seed, escalate=escalate)
 
     # ---- verdict
@@ -210,7 +210,7 @@ def main():
 
     cov = dict(res["coverage"])
     if srcref_res is not None:
-        cov["source_refinement"] = {k: v for k, v in srcref_res.items() if k != "log"}
+        cov["source_refinement"] = [{k: v for k, v in r.items() if k != "log"} for r in srcref_res]
     cov.update({
         "obligations": max(1, len(names)),
         "discharged": len(discharged) if names else 0,
@@ -224,7 +224,7 @@ def main():
     })
     if srcref_res is not None:
         cov["trusted_base"] = cov["trusted_base"] + [
-            "translator tie for reg_access.py: harness/py2coq.py (fail-closed ast dump; drops imports/docstrings/annotations, "
+            "translator tie (reg_access.py, sim_services/_utils.py): harness/py2coq.py (fail-closed ast dump; drops imports/docstrings/annotations, "
             "typing.cast(T,e) -> e, n-ary and/or nested to the right, attrs/enum class forms) and the PyLite semantics "
             "coq/pylite/PyLite.v (tree-valued objects: no aliasing, sets of ints as duplicate-free lists)"]
     if a.tier == "thorough" and not a.replay:
